@@ -130,8 +130,7 @@ Definition show_gen (ct : ctable) (r : result (pstr * gstate)) : pstr :=
   match r with
   | Err x => S "GENERR " ++ show_exn x
   | Ok (f, g) => S "GEN " ++ hex f ++ (if coherent g then S " coh" else S " incoh") ++
-                 (if region_ok ct g then S " reg" else S " noreg") ++
-                 (if g_alias g then S " alias" else S " noalias") ++ S "#" ++
+                 (if names_distinct g then S " dist" else S " nodist") ++ S "#" ++
                  join (S "#") (map show_fn (g_fns g))
   end.
 
